@@ -656,6 +656,15 @@ class Prefix:
         symbol: Optional[str] = None,
     ) -> None:
         if self._initialized:
+            # a structurally equal prefix may have been created anonymously (by
+            # arithmetic) before this definition names it
+            if (self.base, self.exponent) == (base, exponent):
+                if name and not self.name:
+                    self.name = name
+                    self._by_name[name] = self
+                if symbol and not self.symbol:
+                    self.symbol = symbol
+                    self._by_symbol[symbol] = self
             return
 
         self.base = base
@@ -1646,6 +1655,11 @@ class Logarithm:
         symbol: Optional[str] = None,
     ) -> None:
         if self._initialized:
+            # an equal logarithm may have been created anonymously before it is named
+            if name and not self.name:
+                self.name = name
+            if symbol and not self.symbol:
+                self.symbol = symbol
             return
 
         self.base = base
